@@ -456,7 +456,10 @@ def rule_st8(ctx: Ctx) -> RuleResult:
                         st_from_event = any(x == EV for x in subterms(e.state))
                         key_is_state = e.key is not None and (e.key[0] == "stateid" or (e.key[0] == "free" and e.key[1] in svars))
                         key_from_event = e.key is None or any(x == EV for x in subterms(e.key)) or e.op == "clear"
-                        ok = not st_from_event and not key_is_state and key_from_event
+                        # the state argument IS one of the handler's state variables (None, a constant or a value computed on the way
+                        # addresses no state, or somebody else's)
+                        st_is_var = e.state[0] == "stateid" or (e.state[0] == "free" and e.state[1] in svars)
+                        ok = not st_from_event and not key_is_state and key_from_event and st_is_var
                         r.ob(ok, lambda e=e, kind=kind, cfg=cfg, p=p: mk_finding(
                             "ST-8", spec, kind, cfg, p,
                             "%s is called with state = %s and key = %s: the first argument must be the state id created in the Probe branch and the second "
